@@ -808,7 +808,7 @@ func genProg(t *rapid.T) Prog {
 
 func TestFeeQuotePrograms(t *testing.T) {
 	pbt.Run(t, pbt.Sub[Prog]{
-		Name: "feequote-programs", Quick: 2400, Thorough: 36000,
+		Name: "feequote-programs", Quick: 1600, Thorough: 30000,
 		Gen: genProg, Check: checkProg, Precommit: true,
 	})
 }
